@@ -6,6 +6,7 @@ import (
 	"unsafe"
 
 	"github.com/goccy/go-json/internal/runtime"
+	"github.com/goccy/go-json/internal/verifhook"
 )
 
 type compileContext struct {
@@ -82,6 +83,9 @@ type RuntimeContext struct {
 }
 
 func (c *RuntimeContext) Init(p uintptr, codelen int) {
+	if verifhook.ExactPtrs() {
+		c.Ptrs = make([]uintptr, codelen)
+	}
 	if len(c.Ptrs) < codelen {
 		c.Ptrs = make([]uintptr, codelen)
 	}
@@ -93,6 +97,7 @@ func (c *RuntimeContext) Init(p uintptr, codelen int) {
 
 func (c *RuntimeContext) Ptr() uintptr {
 	header := (*runtime.SliceHeader)(unsafe.Pointer(&c.Ptrs))
+	verifhook.SlotRegion(header.Data, len(c.Ptrs))
 	return uintptr(header.Data)
 }
 
